@@ -252,6 +252,8 @@ class ESME:
         self._writer: Optional[StreamWriter] = None
         self._is_shutting_down: bool = False
         self._drain_lock: asyncio.Lock = asyncio.Lock()
+        # The SubmitSm (or its segment) most recently handed over to the correlator
+        self._recorded_submit_sm: Optional[SubmitSm] = None
         self._data_received: asyncio.Event = asyncio.Event()
         self._bound: asyncio.Event = asyncio.Event()
         self._shut_down: asyncio.Event = asyncio.Event()
@@ -426,6 +428,8 @@ class ESME:
                 smpp_command=smpp_message.smpp_command,
                 sequence_num=smpp_message.sequence_num,
             )
+            if isinstance(smpp_message, SubmitSm):
+                self._recorded_submit_sm = smpp_message
             await self.correlator.put(smpp_message)
 
     async def _dequeue_messages(self) -> Dict[str, Any]:
@@ -450,6 +454,7 @@ class ESME:
                         )
                     continue
                 messages_to_send: List[SmppMessage] = [smpp_message]
+                self._recorded_submit_sm = None
                 try:
                     if isinstance(smpp_message, SubmitSm):
                         smpp_message.set_encoding_info(self.default_encoding, self.custom_codecs)
@@ -516,8 +521,14 @@ class ESME:
                         await self._send_data(message)
                 except CancelledError:
                     # The session is being torn down while this message is in progress:
-                    # it was taken from the broker, so the user application must learn its fate
-                    if isinstance(smpp_message, SubmitSm):
+                    # it was taken from the broker, so the user application must learn its fate,
+                    # unless its last PDU is already on the wire and recorded by the correlator
+                    # (which stores a request before it does anything else): then it is in flight
+                    # like any other request, and its response or its expiry will be reported
+                    if (
+                        isinstance(smpp_message, SubmitSm)
+                        and self._recorded_submit_sm is not messages_to_send[-1]
+                    ):
                         await self.hook.send_error(
                             smpp_message,
                             ConnectionError('Session ended before the message was sent'),
